@@ -3099,7 +3099,7 @@ func init() {
 	reg(&Rule{ID: "R-C15-haltstatus", Props: []string{"C15"}, Floor: 3,
 		Doc: "in the per-input loop of cli.process the error that decides the exit status is always the current one (err = e with e the error just seen): a halt on a later input reports its own status even when an earlier input failed",
 		Run: ruleHaltStatus})
-	reg(&Rule{ID: "R-C16-fileverbatim", Props: []string{"C16"}, Floor: 1,
+	reg(&Rule{ID: "R-C16-fileverbatim", Props: []string{"C16", "C17"}, Floor: 1,
 		Doc: "the text of a query file (-f) reaches the parser as read: string(src) of os.ReadFile's result, with nothing applied to it (passing the file equals passing its text)",
 		Run: ruleFileVerbatim})
 }
@@ -3246,6 +3246,55 @@ func ruleFileVerbatim(c *Ctx, r *Rep) {
 	})
 	if n == 0 {
 		r.Undecided("census", fd.Pos(), "the bytes read from the query file are never used")
+	}
+	// the variable that holds the file's text is not rewritten on the way to the parser: an assignment to it that lies
+	// after the file branch, in a block enclosing that branch, transforms the file's text too (a TrimSpace hoisted out
+	// of the argument branch moves every reported position of a query file that starts with blank lines)
+	var textObj types.Object
+	var fileAssign *ast.AssignStmt
+	ast.Inspect(fd.Body, func(q ast.Node) bool {
+		as, ok := q.(*ast.AssignStmt)
+		if !ok || len(as.Lhs) != len(as.Rhs) {
+			return true
+		}
+		for i, rhs := range as.Rhs {
+			if call, ok := unparen(rhs).(*ast.CallExpr); ok && len(call.Args) == 1 {
+				if id, ok := unparen(call.Args[0]).(*ast.Ident); ok && info.Uses[id] == srcObj {
+					if lid, ok := as.Lhs[i].(*ast.Ident); ok {
+						textObj, fileAssign = info.ObjectOf(lid), as
+					}
+				}
+			}
+		}
+		return true
+	})
+	if textObj != nil {
+		walkStack(fd.Body, func(q ast.Node, stack []ast.Node) bool {
+			as, ok := q.(*ast.AssignStmt)
+			if !ok || as == fileAssign || as.Pos() < fileAssign.Pos() {
+				return true
+			}
+			assigns := false
+			for _, lhs := range as.Lhs {
+				if id, ok := lhs.(*ast.Ident); ok && info.ObjectOf(id) == textObj {
+					assigns = true
+				}
+			}
+			if !assigns {
+				return true
+			}
+			// innermost enclosing block of the assignment
+			for i := len(stack) - 1; i >= 0; i-- {
+				if b, ok := stack[i].(*ast.BlockStmt); ok {
+					if b.Pos() <= fileAssign.Pos() && fileAssign.End() <= b.End() {
+						r.Bad("queryfile:rewritten:"+c.Src(as), as.Pos(), "`%s` rewrites the variable that holds the query file's text after it was read: the text the parser sees (and every position it reports) is no longer the file's", c.Src(as))
+					}
+					break
+				}
+			}
+			return true
+		})
+		r.OK("queryfile:downstream", fileAssign.Pos(), "no assignment to %s downstream of the file branch", textObj.Name())
 	}
 }
 
